@@ -213,7 +213,7 @@ static int run_case(const json &c, long &nlines, std::string &note) {
 			prover.join(); relay_pv.join(); relay_vp.join();
 			nlines = sent;
 			if (mut != "none" && target >= sent && mut != "trunc") note = "n/a";      // the verifier stopped before that line
-			if (mut == "trunc" && target > sent) note = "n/a";
+			if (mut == "trunc" && target >= sent) note = "n/a";      // nothing was cut off: the transcript has only `sent` lines
 			verdict = vexc ? 2 : (r ? 1 : 0);
 			(void)prover_exc;
 		}
